@@ -5,7 +5,8 @@
    Float part: see DESIGN.md (struct.pack/unpack are not modelled; exhaustive-by-exponent sweep). *)
 From Coq Require Import ZArith List.
 From Coq.Strings Require Import Byte.
-From TS Require Import Bytes Codec BytesLemmas CodecProofs.
+From Flocq Require Import IEEE754.Binary IEEE754.Bits.
+From TS Require Import Bytes Codec BytesLemmas CodecProofs FloatCodec FloatCodecProofs.
 Import ListNotations.
 Open Scope Z_scope.
 
@@ -33,6 +34,28 @@ Example C10_example :
   /\ int_to_bytes fl2_exact 128 = Some [x00; x80] /\ int_to_bytes fl2_exact (-128) = Some [x80].
 Proof. vm_compute. repeat split; reflexivity. Qed.
 
+(* ---------------- floats: IEEE-754 binary32 as formalised by Flocq (model/FloatCodec.v) ----------------
+   float_to_bytes x = the 32 bits of x, big endian (struct.pack('!f')); bytes_to_float = struct.unpack('!f').
+   These four theorems depend on the axioms of the standard library's real numbers and classical logic through Flocq
+   (listed by Print Assumptions below and named in the trusted base); the integer theorems above depend on none. *)
+Theorem C10_float_roundtrip : forall x : binary32, bytes_to_float (float_to_bytes x) = Some x.
+Proof. exact float_roundtrip. Qed.
+
+Theorem C10_float_bytes_roundtrip :
+  forall b : bytes, List.length b = 4%nat -> exists x, bytes_to_float b = Some x /\ float_to_bytes x = b.
+Proof. exact bytes_roundtrip. Qed.
+
+Theorem C10_float_decoding_total_exactly_on_4_bytes :
+  forall b : bytes, bytes_to_float b <> None <-> List.length b = 4%nat.
+Proof. exact bytes_to_float_total. Qed.
+
+Theorem C10_float_encoding_injective : forall x y : binary32, float_to_bytes x = float_to_bytes y -> x = y.
+Proof. exact float_to_bytes_injective. Qed.
+
+Print Assumptions C10_float_roundtrip.
+Print Assumptions C10_float_bytes_roundtrip.
+Print Assumptions C10_float_decoding_total_exactly_on_4_bytes.
+Print Assumptions C10_float_encoding_injective.
 Print Assumptions C10_int_roundtrip.
 Print Assumptions C10_bytes_to_int_total.
 Print Assumptions C10_decode_injective.
